@@ -223,6 +223,10 @@ func engineRule(g *Gen) string {
 		return Pick(g, []string{"", "||", "*"}) + Pick(g, []string{"x", "", "ab"}) + p[g.Intn(2)] + Pick(g, []string{"", "^", "z*", "/q"})
 	case 1:
 		// shortcut of length exactly 5 / below 5 / any-URL shortcuts
+		if g.Chance(1, 3) {
+			// the only literal part lies inside the scheme (+ "www.") prefix, yet is too long to be an "any URL" shortcut
+			return Pick(g, []string{"://www.*/ads^", "|https://www.*.top^$script", "@@|http://www.*/ads^$image", "|http://www.*", "://www.*^$third-party", "|https://www.*", "s://www.*/x", "ttp://www.*", "|wss://www.*"})
+		}
 		return Pick(g, []string{"abcde", "abcd$domain=example.org", "||ab^$domain=test.com", "http://*ad$domain=example.org", "|https://$domain=example.org", "ws://x", "|ws://*$domain=a.org", "https://", "|http://ab", "http*banner"})
 	case 2, 3:
 		if g.Chance(1, 4) {
@@ -365,6 +369,13 @@ func init() {
 				var reqs []Req
 				for j := 0; j < nreq; j++ {
 					reqs = append(reqs, engineURLReq(g, lines))
+				}
+				// requests under www. over every scheme, for the rules whose literal is the scheme prefix
+				for _, l := range lines {
+					if strings.Contains(l, "www.*") && len(reqs) < nreq+12 {
+						reqs = append(reqs, Req{Kind: "url", URL: Pick(g, []string{"http", "https", "wss"}) + "://www.shop.top/ads", Source: "https://other.org/", Type: Pick(g, []uint32{2, 4, 32})},
+							Req{Kind: "url", URL: "https://www.example.org/x", Type: 4})
+					}
 				}
 				// $domain values written with capitals: requests from the lower-case spelling of every value and below it
 				for _, l := range lines {
@@ -542,6 +553,11 @@ func init() {
 					ls[0].content += Pick(g, []string{"||", "@@||"}) + nm + "^" + Pick(g, []string{"", "$important", "$dnstype=A"}) + "\n" + Pick(g, hostsIPs) + " " + nm + "\n"
 					reqs = append(reqs, Req{Kind: "host", Hostname: nm}, Req{Kind: "host", Hostname: "www." + nm, DNSType: 1})
 				}
+				// a name in which every lookup window occurs twice (search-list expansion "name.name"): each rule once
+				for j := 0; j < 3; j++ {
+					h := Pick(g, hostsNames[:6])
+					reqs = append(reqs, Req{Kind: "host", Hostname: h + "." + h})
+				}
 				for j := 0; j < nreq; j++ {
 					r := Req{Kind: "host", Hostname: Pick(g, hostsNames)}
 					switch g.Intn(5) {
@@ -661,7 +677,7 @@ func init() {
 	})
 
 	// ---------------- C15 ----------------
-	cosHosts := []string{"example.org", "sub.example.org", "a.sub.example.org", "example.com", "shop.example.org", "www.shop.example.org", "other.net", "example.co.uk", "www.example.de", "notexample.org", "org", "localhost", "google.com", "www.google.co.uk", "a.google.b.notgoogle.com"}
+	cosHosts := []string{"myblog.blogspot.com", "www.myblog.blogspot.com", "user.github.io", "app.localhost", "printer.lan", "example.org", "sub.example.org", "a.sub.example.org", "example.com", "shop.example.org", "www.shop.example.org", "other.net", "example.co.uk", "www.example.de", "notexample.org", "org", "localhost", "google.com", "www.google.co.uk", "a.google.b.notgoogle.com"}
 	cosLine := func(g *Gen) string {
 		findCollisions()
 		sel := Pick(g, []string{".ad", ".banner", "#top", ".x", "div.promo", ".wide", ".noshop"})
@@ -669,7 +685,8 @@ func init() {
 			// different selectors with the same hash: an exception cancels its OWN selector only
 			sel = collidingSelectors[g.Intn(min(2, len(collidingSelectors)))][g.Intn(2)]
 		}
-		doms := []string{"example.org", "sub.example.org", "example.com", "shop.example.org", "other.net", "example.*", "google.*", "www.google.*", "example.co.uk", "org"}
+		doms := []string{"example.org", "sub.example.org", "example.com", "shop.example.org", "other.net", "example.*", "google.*", "www.google.*", "example.co.uk", "org",
+			"myblog.blogspot.com", "github.io", "localhost", "printer.lan", "myblog.*"}
 		switch g.Intn(10) {
 		case 0, 1:
 			return "##" + sel
